@@ -2034,7 +2034,7 @@ def render_def(r, top, types, order, style):
                 out.append(r.choice(["# a comment", "", "   ", "int32 CONST=5", "string S = hello # c", "#"]))
             sep = " " if style == 0 else r.choice([" ", "  ", " \t", "\t ", "   \t  "])
             lead = "" if style < 2 else r.choice(["", " ", "\t", "  "])
-            trail = "" if style < 2 else r.choice(["", " ", "  # trailing comment", "\t"])
+            trail = "" if style < 2 else r.choice(["", " ", "  # trailing comment", "\t", " # 0=ok, 1=failed", "#x=1"])
             out.append(lead + tref + arr + sep + fname + trail)
         return out
     secs = ["\n".join(lines_of(top))]
@@ -3118,6 +3118,44 @@ def check_c16(rep, tier, seed, wd, replay):
                     rep.add_violation("oracle", "case %s: Python %s log-time read is not in %s log-time order (%s)" % (cid, f[1], "descending" if desc else "ascending", op),
                                       ["# mode pyread", "case " + cid] + lines + ["end"])
     st["py_filter_order_checks"] = npyo
+    # oracle: the Python package reads a Python-written file as what the writer was given (the Go lexer is held to the same
+    # expectation above, so this is "both implementations read the file identically"): metadata records and the metadata of
+    # the channels that were written, from the streaming read with CRC validation
+    def kvset(txt):
+        return tuple(sorted(tuple(cm.unhx(x) for x in item.split(":", 1)) for item in txt.split(","))) if txt != "-" else ()
+    npyw = 0
+    for f in pfiles:
+        blocks = pyo.get(f["id"] + "_py", [])
+        stream, on = [], False
+        for l in blocks:
+            if l.startswith("op "):
+                on = l.startswith("op stream skip=0 emit=0 validate=1")
+                continue
+            if on:
+                stream.append(l)
+        if not stream or not any(l.startswith("end stop") for l in stream):
+            continue
+        want = py_expected(f["w"])
+        gotmd = []
+        for l in stream:
+            m = re.match(r"(?:rec )?metadata name=(\S+) meta=(\S+)", l)
+            if m:
+                gotmd.append((cm.unhx(m.group(1)), kvset(m.group(2))))
+        gotch = {}
+        for l in stream:
+            m = re.match(r"(?:rec )?channel id=(\d+) schema=(\d+) topic=(\S+) menc=(\S+) meta=(\S+)", l)
+            if m:
+                gotch[int(m.group(1))] = kvset(m.group(5))
+        npyw += 1
+        probs = []
+        if gotmd != want["metadata"]:
+            probs.append("Python streaming reader returns metadata records %s of a Python-written file, the writer was given %s" % (str(gotmd)[:150], str(want["metadata"])[:150]))
+        for c2 in want["channels"]:
+            if c2[0] in gotch and gotch[c2[0]] != c2[4]:
+                probs.append("Python streaming reader returns channel %d with metadata %s, the writer was given %s" % (c2[0], str(gotch[c2[0]])[:120], str(c2[4])[:120]))
+        for pmsg in probs[:2]:
+            rep.add_violation("oracle", "case %s_py: %s" % (f["id"], pmsg), ["# mode pyread", "case " + f["id"] + "_py"] + next(l2 for c3, l2 in pcases if c3 == f["id"] + "_py") + ["end"])
+    st["py_reads_of_py_files_checked"] = npyw
     wcases = []
     for name, w in works:
         po = w["opts"]
